@@ -624,7 +624,10 @@ def run(facts, rep, tier, ctx):
         c09.table_u(facts, scratch, w_, "U", only=("set_creation_time", "set_modification_time", "set_access_time"))
         for o in scratch.obligations:
             d = o["key"].split("|")[2]
-            if "no copy-up" in d:
+            if "no copy-up" in d or (d.split(":")[0] in ("set_creation_time", "set_modification_time", "set_access_time") and
+                                     "the served entry is the one re-timed" not in d):    # (that row is F11: C01/C09/C19's subject)
+                # (every row: the setter answers with the write layer's own result — NotSupported, FileNotFound — not with a
+                # refusal of its own)
                 rep.ob(("A/" if w_.asyncw else "") + "R12.3u", o["fn"], d, o["ok"], o["detail"], o["loc"])
         # ... nor does append_file re-label what its copy-up reports (NotSupported of a read-only write layer, FileNotFound of
         # a lower file that vanished): the copy-up's result is propagated as it is
